@@ -2,6 +2,8 @@ import ChythonModel.Proofs.C05Matching
 import ChythonModel.Proofs.C05Totals
 import ChythonModel.Proofs.C05Classify
 import ChythonModel.Proofs.C05Rules
+import ChythonModel.Proofs.C05Thiele
+import ChythonModel.Proofs.C05Round
 /-!
 # C05 — Kekulé and aromatic forms describe the same molecule; conversions are stable
 
@@ -26,7 +28,7 @@ that an accepted output satisfies the declarative clauses of the property, for e
   name the elements the model's literals assume.
 -/
 namespace ChythonModel.Props.C05
-open ChythonModel.Model ChythonModel.Model.C05 ChythonModel.Spec.Kekule ChythonModel.Proofs.C05
+open ChythonModel.Model ChythonModel.Model.C05 ChythonModel.Model.C05T ChythonModel.Spec.Kekule ChythonModel.Proofs.C05
 open ChythonModel.Gen.Aromatic
 open ChythonModel.Model.Valence (molecularCharge isRadical brutto checkValence calcImplicitMol)
 
@@ -133,8 +135,39 @@ theorem thiele_preserves_formula (k t : Mol) (h : checkThiele k t = true) : brut
   unfold brutto Valence.implicitTotal
   rw [symbolCounter_congr [] (elements_of_skeleton hs.skeleton), hh]
 
+/-- the two conversions are inverse at the level of the relations: the localised, valence-consistent molecule an
+    aromatic form was made from is one of that form's Kekulé forms (no four-ring reset involved) -/
+theorem aromatic_form_has_its_source_as_kekule_form (k t : Mol) (h : IsAromFormOf k t)
+    (hno : ∀ n m b b', k.bond? n m = some b → t.bond? n m = some b' → AromOrder b.order b'.order)
+    (hloc : ∀ n m b, k.bond? n m = some b → Localised b.order) (hc : HConsistent k) : IsKekuleOf t k :=
+  kekule_of_aromatic_form k t h hno hloc hc
+
 example : checkThiele pyrroleKek { pyrroleArom with atoms := pyrroleKek.atoms } = true := by decide +kernel
 example : checkThiele pyrroleKek pyrroleArom = false := by decide +kernel
+
+/-! ### ring eligibility of `thiele()` (`ringKind`, the function behind the driver's `tmono` / `thr`) -/
+
+/-- a ring that `thiele()` considers has 4–7 atoms, all B, C, N, O, P or S with at most three non-special neighbours -/
+theorem thiele_candidate_ring_shape (m : Mol) (ring : List Nat) (h : ringKind m ring ≠ .skip) :
+    4 ≤ ring.length ∧ ring.length ≤ 7 ∧
+    ∀ n ∈ ring, [6, 7, 8, 16, 5, 15].contains (zOf m n) = true ∧ nsc m n ≤ 3 :=
+  ringKind_not_skip m ring h
+
+/-- the donor of a pyrrole-like ring is a ring atom with single bonds only, neutral or the C⁻ of a five-ring -/
+theorem thiele_donor_atom (m : Mol) (ring : List Nat) (n : Nat) (h : ringKind m ring = .pyrrole n) :
+    n ∈ ring ∧ hybridization m n = 1 ∧ (chargeOf m n = 0 ∨ (chargeOf m n = -1 ∧ zOf m n = 6 ∧ ring.length = 5)) :=
+  ringKind_pyrrole m ring n h
+
+/-- soundness of the at-scale check: every bond that became aromatic lies on a candidate ring -/
+theorem thiele_aromatises_only_candidate_rings (k t : Mol) (sssr : List (List Nat))
+    (h : aromatisedOnlyEligible k t sssr = true) (n m : Nat) (b b' : Bond) (hb : k.bond? n m = some b)
+    (hb' : t.bond? n m = some b') (h4 : b'.order = 4) (hn4 : b.order ≠ 4) :
+    ∃ r ∈ sssr, onRing r n m = true ∧ candidate (ringKind k r) = true :=
+  aromatisedOnlyEligible_sound k t sssr h n m b b' hb hb' h4 hn4
+
+example : ringKind pyrroleKek [1, 2, 3, 4, 5] = .pyrrole 1 := by decide
+example : monoAromatic pyrroleKek [1, 2, 3, 4, 5] = true := by decide
+example : aromatisedOnlyEligible pyrroleKek { pyrroleArom with atoms := pyrroleKek.atoms } [[1, 2, 3, 4, 5]] = true := by decide
 
 /-! ## 4. classification of ring atoms (`Kekule.__prepare_rings`) -/
 
